@@ -231,10 +231,27 @@ def translate_encode(src):
     return "\n".join(out)
 
 
+def translate_wkt(src):
+    """wkt.go: the error type and its message.  Exactly
+         type UnsupportedGeometryError struct { Type reflect.Type }
+         func (e UnsupportedGeometryError) Error() string { return "LIT" + e.Type.String() }"""
+    body = "\n".join(l for l in src.split("\n") if l.strip() and not l.startswith("//"))
+    m = re.fullmatch(r'package wkt\nimport \(\n\t"reflect"\n\)\n'
+                     r'type UnsupportedGeometryError struct \{\n\tType reflect\.Type\n\}\n'
+                     r'func \(e \*?UnsupportedGeometryError\) Error\(\) string \{\n'
+                     r'\treturn "([^"\\]*)" \+ e\.Type\.String\(\)\n\}', body)
+    if not m:
+        raise Untranslatable("wkt.go is not the UnsupportedGeometryError type with Error() = literal + e.Type.String()")
+    lit = m.group(1)
+    if not all(32 <= ord(ch) < 127 for ch in lit):
+        raise Untranslatable("string literal %r" % lit)
+    return 'def errorText (typeName : String) : String := "%s" ++ typeName' % lit
+
+
 HEADER = """import GeomV.C17.Model
 /-!
 REGENERATED on every run of `bin/check C17` by checks/c17_go2lean.py from
-%s/encoding/wkt/{point,linestring,polygon,multilinestring,multipolygon,encode}.go — do not edit.
+%s/encoding/wkt/{point,linestring,polygon,multilinestring,multipolygon,encode,wkt}.go — do not edit.
 `GeomV/C17/Tie.lean` proves these definitions equal to the hand-written model, so the C17 theorems
 are re-checked against what the source says now.
 -/
@@ -258,7 +275,8 @@ def generate(repo):
     byname = dict(defs)
     text = HEADER % "/repo"
     text += "\n\n".join(byname[n] for n in order)
-    text += "\n\n" + translate_encode(open(os.path.join(d, "encode.go")).read()) + "\n\nend GeomV.C17.Gen\n"
+    text += "\n\n" + translate_encode(open(os.path.join(d, "encode.go")).read())
+    text += "\n\n" + translate_wkt(open(os.path.join(d, "wkt.go")).read()) + "\n\nend GeomV.C17.Gen\n"
     return text
 
 
